@@ -55,7 +55,7 @@ def install():
 
     def after_update(self, tok, res, observations, *a, **k):
         if observations:
-            probes.rec("ukf_update_order", target=int(self.target_id), order=[(int(o.sensor_id), int(o.target_id)) for o in observations],
+            probes.rec("ukf_update_order", target=int(self.target_id), order=[obs_key(o) for o in observations],      # with the measured values: one sensor can contribute several observations of a target (primary in one job, serendipitous in others)
                        cond=float(np.linalg.cond(self.innov_cvr)), dx=np.abs(np.array(self.est_x, dtype=float) - np.array(self.pred_x, dtype=float)),
                        dp=float(np.max(np.abs(np.array(self.pred_p) - np.array(self.est_p)))))
 
